@@ -69,9 +69,9 @@ package xsort
 //@   modifies iter.pos, iter.pulls
 //@   before call New[0]: ghost callarg1.want := false
 //@   loop 0: invariant itInv(iter) && old(iter.pos) <= iter.pos && wfH(h) && !h.indexChanged.tracks && fresh(h.indexChanged)
-//@   loop 0: invariant len(h.a) == min(max(k, 0), iter.pos - old(iter.pos)) && (len(h.a) == 0 || fresh(h.a))
+//@   loop 0: invariant len(h.a) == min(max(k, 0), iter.pos - old(iter.pos)) && (cap(h.a) == 0 || fresh(h.a))
 //@   loop 0: invariant forall a T, b T {h.lessFn(a, b)} :: h.lessFn(a, b) == less(b, a)
-//@   loop 1: invariant -1 <= i && i < len(out) && len(h.a) == i + 1 && wfH(h) && !h.indexChanged.tracks && fresh(out) && off(out) == 0 && (len(h.a) == 0 || fresh(h.a))
+//@   loop 1: invariant -1 <= i && i < len(out) && len(h.a) == i + 1 && wfH(h) && !h.indexChanged.tracks && fresh(out) && off(out) == 0 && (cap(h.a) == 0 || fresh(h.a)) && (len(out) > 0 ==> arr(out) != arr(h.a))
 //@   loop 1: invariant len(out) == min(max(k, 0), iter.n - old(iter.pos)) && iter.pos == iter.n
 //@   loop 1: invariant forall a T, b T {h.lessFn(a, b)} :: h.lessFn(a, b) == less(b, a)
 //@   loop 1: invariant forall t int, u int {out[t], out[u]} :: i < t && t <= u && u < len(out) ==> !less(out[u], out[t])
